@@ -185,7 +185,7 @@ round9 = {
  "C19": " Rows-without-a-body part (model-free): raw entry points handed a nil body (SetRaw, AddRaw, WriteCas raw, an Update callback returning nil) leave rows without a body; after every third call the ids returned by a query over $_keyspace must be exactly the keys that Exists / GetRaw report.",
  "C01": " Forced-windows part: the expiry asked for by an Update / WriteUpdateWithXattrs attempt that lost its CAS check must not be stored by the attempt that wins. Refused-inside-the-transaction part (shared with C17, own PRNG stream): a call refused by an unevaluable expression index - its INSERT / UPDATE fails after the entry point prepared everything - must leave the key's complete read-back byte-identical.",
  "C08": " Refused-inside-the-transaction part (shared with C17, own PRNG stream): a call whose statement is refused by an unevaluable expression index posts no event; an acknowledged one posts exactly one (a fence write after every call closes the window).",
- "C17": " Refused-inside-the-transaction part: an expression index that cannot be evaluated over some rows (abs of the smallest integer over a missing xattr / body property) makes the INSERT / UPDATE of a write fail inside its transaction, after the entry point has incremented the revision and filled in its event; one key goes through random histories of 19 kinds of mutating calls, each judged by what the call itself returned: acknowledged -> $document.revid +1 (1 on creation) and one live event carrying that number, refused -> revision unchanged and no event (a fence write on another key closes each call's window).",
+ "C17": " Refused-inside-the-transaction part: an expression index that cannot be evaluated over some rows (abs of the smallest integer over a missing xattr / body property) makes the INSERT / UPDATE of a write fail inside its transaction, after the entry point has incremented the revision and filled in its event; one key goes through random histories of 18 kinds of mutating calls, each judged by what the call itself returned: acknowledged -> $document.revid +1 (1 on creation) and one live event carrying that number, refused -> revision unchanged and no event (a fence write on another key closes each call's window).",
 }
 for k, v in round9.items():
     claimed[k]["text"] += v
